@@ -33,7 +33,8 @@ F(a, c, s) == [abs |-> a, carets |-> c, segs |-> s]
 Cn(tag, v) == [t |-> tag, n |-> <<v>>]
 W == IF Widths = {} THEN {1 + (Len(toks) % 4)} ELSE Widths
 Depth == Len(st.stack)
-NextName == Fresh[nfresh + 1]
+\* names for the next declaration: the next unused one; with finding D3 closed also every name used before
+NextNames == {Fresh[nfresh + 1]} \cup (IF "D3" \in Excluded THEN {} ELSE {Fresh[i] : i \in 1..nfresh})
 
 UserScopes == {o.p : o \in {x \in st.ns : x.kind \in ObjKinds}}
 AllScopes  == UserScopes \cup {<<>>} \cup {<<s>> : s \in PreScopes}
@@ -55,7 +56,7 @@ OpenArgs(kd) == CASE kd = "Processor" -> <<Cn("byte", 1), [t |-> "dword", n |-> 
                   [] kd = "PowerRes"  -> <<Cn("byte", 2), Cn("word", 513)>>
                   [] OTHER            -> <<>>
 NameVals == { Cn("byte", 200), [t |-> "dword", n |-> <<65535, 65534>>], [t |-> "qword", n |-> <<32768, 0, 1, 2>>],
-              [t |-> "string", s |-> "ab c"], [t |-> "one"],
+              [t |-> "string", s |-> "a~ c"], [t |-> "one"],
               [t |-> "buffer", a |-> <<Cn("byte", 3)>>, n |-> <<1, 255>>],
               [t |-> "package", n |-> <<2>>, a |-> <<Cn("word", 4660), [t |-> "string", s |-> "x"]>>] }
 DeclArgs(kd) == CASE kd = "Name"     -> {<<v>> : v \in NameVals}
@@ -66,7 +67,7 @@ DeclArgs(kd) == CASE kd = "Name"     -> {<<v>> : v \in NameVals}
 \* the regions visible from the current scope by the search rule
 Regions == {o.p : o \in {x \in st.ns : x.kind = "OpRegion" /\ SearchUp(st.ns, Cur(st), Last(x.p)) = x.p}}
 FieldEls(a, b) == { <<[e |-> "unit", name |-> a, bits |-> 8, wl |-> 1]>>,
-                    <<[e |-> "unit", name |-> a, bits |-> 3, wl |-> 2], [e |-> "skip", bits |-> 70, wl |-> 1],
+                    <<[e |-> "unit", name |-> a, bits |-> 70003, wl |-> 2], [e |-> "skip", bits |-> 4100, wl |-> 1],
                       [e |-> "access", at |-> 3, aa |-> 1], [e |-> "unit", name |-> b, bits |-> 4095, wl |-> 1]>> }
 
 \* method bodies
@@ -97,15 +98,15 @@ Step(t, dprod, dfresh) ==
 
 Room(n) == ~InMethod(st) /\ nprod < MaxProd /\ nfresh + n <= Len(Fresh) /\ st.tab <= MaxTables
 OpenObj   == /\ Room(1) /\ Depth < MaxDepth
-             /\ \E kd \in OpenKinds, f \in DeclForms(NextName), w \in W :
+             /\ \E kd \in OpenKinds, nm \in NextNames : \E f \in DeclForms(nm), w \in W :
                   Step([k |-> "open", kind |-> kd, f |-> f, w |-> w, args |-> OpenArgs(kd)], 1, 1)
              /\ UNCHANGED nstm /\ lastClosed' = ""
 DeclObj   == /\ Room(1)
-             /\ \E kd \in DeclKindsOn, f \in DeclForms(NextName) : \E a \in DeclArgs(kd) :
+             /\ \E kd \in DeclKindsOn, nm \in NextNames : \E f \in DeclForms(nm) : \E a \in DeclArgs(kd) :
                   Step([k |-> "decl", kind |-> kd, f |-> f, args |-> a], 1, 1)
              /\ UNCHANGED nstm /\ lastClosed' = ""
 OpenMethod == /\ Room(1) /\ Depth < MaxDepth
-              /\ \E fl \in MethodFlags, f \in DeclForms(NextName), w \in W :
+              /\ \E fl \in MethodFlags, nm \in NextNames : \E f \in DeclForms(nm), w \in W :
                    Step([k |-> "method", f |-> f, w |-> w, flags |-> fl], 1, 1)
               /\ nstm' = 0 /\ lastClosed' = ""
 OpenScope == /\ ScopeOn /\ Room(0) /\ Depth < MaxDepth
@@ -146,7 +147,12 @@ Fresh6 == <<"AAAA", "BBBB", "CCCC", "DDDD", "EEEE", "F123">>
 \* the loader's own properties hold for every program prefix
 LoaderSound == TreeShaped(st) /\ StackSound(st) /\ CallsSound(st) /\ st = Load(toks)
 \* the abstract parser design builds exactly what the loader says, for every complete program
-Refines == IsComplete => I!Parse(toks, Bug) = [ns |-> st.ns, calls |-> [i \in 1..Len(st.calls) |-> [tab |-> st.calls[i].tab, p |-> st.calls[i].p, n |-> Len(st.calls[i].a)]]]
+\* (programs that use a construct on which the pinned design is KNOWN to deviate are exempt: they can
+\* only be generated once the finding is closed, and then AmlNsImpl has to follow the repaired code)
+ImplDeviates == {"D1", "D1b", "D2", "D2c", "D8"}
+Expected == [ns |-> st.ns, calls |-> [i \in 1..Len(st.calls) |-> [tab |-> st.calls[i].tab, p |-> st.calls[i].p, n |-> Len(st.calls[i].a)]]]
+RefinesAll == IsComplete => I!Parse(toks, Bug) = Expected
+Refines == (IsComplete /\ st.trig \cap ImplDeviates = {}) => I!Parse(toks, Bug) = Expected
 \* leg G: every complete program goes to the Go harness
 EmitProg == (Emit /\ IsComplete) => CSVWrite("%1$s", <<ToJson([toks |-> toks])>>, IOEnv.CASES)
 ====
